@@ -5,8 +5,9 @@ From Dials Require Export Base.Outcome Base.Runes Reflect.Ty Reflect.Ptrify Stac
 Import ListNotations.
 Open Scope N_scope.
 
-(* later file change: new file layer, view afterwards, Verify receivers, OnNewConfig / OnWatchedError calls *)
-Definition upd_obs := (outcome val * list val * list (list val) * N * N)%type.
+(* later file change: new file layer, view afterwards, Verify receivers, the (old, new) arguments of
+   every OnNewConfig call, number of OnWatchedError calls *)
+Definition upd_obs := (outcome val * list val * list (list val) * list (list val * list val) * N)%type.
 
 Inductive ez_obs :=
 | EzObs (ok : bool) (view : option (list val)) (vlog : list (list val)) (events_empty : bool)
@@ -21,6 +22,13 @@ Fixpoint vlogs_eqb (a b : list (list val)) : bool :=
   match a, b with
   | [], [] => true
   | x :: a', y :: b' => vals_eqb x y && vlogs_eqb a' b'
+  | _, _ => false
+  end.
+
+Fixpoint pairs_eqb (a b : list (list val * list val)) : bool :=
+  match a, b with
+  | [], [] => true
+  | (x1, x2) :: a', (y1, y2) :: b' => vals_eqb x1 y1 && vals_eqb x2 y2 && pairs_eqb a' b'
   | _, _ => false
   end.
 
@@ -61,13 +69,13 @@ Definition check (c : c18case) : N :=
           let st' := ez_file_update fs d verify st fl in
           let dv := skipn (length (d_vlog st)) (d_vlog st') in
           if vals_eqb view2 (d_cur st') && vlogs_eqb vlog2 dv &&
-             (ncb2 =? N.of_nat (length (d_newcfg st') - length (d_newcfg st))) &&
+             pairs_eqb ncb2 (skipn (length (d_newcfg st)) (d_newcfg st')) &&
              (nerr2 =? N.of_nat (length (d_errcb st') - length (d_errcb st)))
           then 0 else 3
       | Some (_, view2, vlog2, ncb2, nerr2), Some st =>
           (* the new content does not decode: the view must stay, nothing is verified,
              the error goes to OnWatchedError (source-reported error, after enable) *)
-          if vals_eqb view2 (d_cur st) && vlogs_eqb vlog2 [] && (ncb2 =? 0) then 0 else 3
+          if vals_eqb view2 (d_cur st) && vlogs_eqb vlog2 [] && pairs_eqb ncb2 [] then 0 else 3
       | Some _, None => 3
       | None, _ => 0
       end
